@@ -46,7 +46,7 @@ S-expression format
            | (tuple e*) (tget e I) (new NAME e*) (field e F) (variant ENUM VARIANT e*)
            | (match e (arm pat body)*)   pat := (pwild) (pvar X) (plit lit) (ptuple pat*) (pvariant ENUM VARIANT pat*)
            | (if c t) (if c t e) (block stmt*) (let pat T e) (assign lvalue e)
-           | (while c body) (for X lo hi body) (break) (continue) (return) (return e)
+           | (while c body) (for X lo hi body) (foreach X collection body) (break) (continue) (return) (return e)
            | (index a i) (template e*) (as TRAIT e) (at LINE e) (assert e)
   Option is the enum "Option" with variants Some/None.  Strings are UTF-8 in lower-case hex.
 """
@@ -206,6 +206,11 @@ def assign(lhs, e):
     return N('assign', lhs, e)
 
 
+def cassign(op, lhs, e):
+    """compound assignment `lhs op= e` (op as in `bin`); its twin is `(assign lhs (bin op lhs e))`: lhs must be free of side effects"""
+    return N('cassign', op, lhs, e)
+
+
 def block(*ss):
     return N('block', *ss)
 
@@ -330,7 +335,8 @@ class DoraEmitter:
         return len(self.lines) + 1
 
     def put(self, ind, text):
-        self.lines.append('    ' * ind + text)
+        for t in ('    ' * ind + text).split('\n'):        # an `mlcall` prints several lines
+            self.lines.append(t)
 
     # -- expressions (single line) --
     def e(self, n, line):
@@ -344,7 +350,8 @@ class DoraEmitter:
         if k == 'un':
             return '(%s%s)' % ('-' if a[0] == 'neg' else '!', self.e(a[1], line))
         if k == 'bin':
-            return '(%s %s %s)' % (self.e(a[1], line), BIN_DORA[a[0]], self.e(a[2], line))
+            # a[3] == 'bare': no parentheses (`p * q + r`: both operations then START at the same source position)
+            return ('%s %s %s' if len(a) > 3 and a[3] == 'bare' else '(%s %s %s)') % (self.e(a[1], line), BIN_DORA[a[0]], self.e(a[2], line))
         if k == 'andalso':
             return '(%s && %s)' % (self.e(a[0], line), self.e(a[1], line))
         if k == 'orelse':
@@ -364,6 +371,10 @@ class DoraEmitter:
             return '%s.%s(%s)' % (self.e(a[1], line), a[0], ', '.join(self.e(x, line) for x in a[2:]))
         if k == 'callv':
             return '%s(%s)' % (self.e(a[0], line), ', '.join(self.e(x, line) for x in a[1:]))
+        if k == 'mlcall':
+            # call of a top-level function written over several lines, argument i on line + 1 + i, `)` on a line of its own
+            # (only as the outermost expression of a statement, arguments single-line)
+            return '%s(\n%s\n)' % (a[0], ',\n'.join('        ' + self.e(x, line + 1 + i) for i, x in enumerate(a[1:])))
         if k == 'lambda':
             ps, ret, body = a
             return '|%s|: %s { %s }' % (', '.join('%s: %s' % (x, ty_dora(t)) for x, t in ps), ty_dora(ret),
@@ -416,7 +427,7 @@ class DoraEmitter:
             return 'break'
         if k == 'continue':
             return 'continue'
-        if k in ('let', 'letp', 'assign', 'while', 'for'):
+        if k in ('let', 'letp', 'assign', 'while', 'for', 'foreach'):
             return self.stmt_inline(n, line)
         raise ValueError(k)
 
@@ -434,11 +445,15 @@ class DoraEmitter:
             return 'let %s = %s' % (pat_dora(a[0]), self.e(a[1], line))
         if k == 'assign':
             return '%s = %s' % (self.e(a[0], line), self.e(a[1], line))
+        if k == 'cassign':
+            return '%s %s= %s' % (self.e(a[1], line), BIN_DORA[a[0]], self.e(a[2], line))
         if k == 'while':
             return 'while %s { %s }' % (self.e(a[0], line), self.inline_block(a[1], line))
         if k == 'for':
             return 'for %s in std::range(%s, %s) { %s }' % (a[0], self.e(a[1], line), self.e(a[2], line),
                                                             self.inline_block(a[3], line))
+        if k == 'foreach':
+            return 'for %s in %s { %s }' % (a[0], self.e(a[1], line), self.inline_block(a[2], line))
         return self.e(n, line)
 
     def inline_block(self, b, line):
@@ -482,6 +497,11 @@ class DoraEmitter:
         if k == 'for':
             self.put(ind, 'for %s in std::range(%s, %s) {' % (a[0], self.e(a[1], line), self.e(a[2], line)))
             self.block_lines(a[3], ind + 1)
+            self.put(ind, '}')
+            return
+        if k == 'foreach':
+            self.put(ind, 'for %s in %s {' % (a[0], self.e(a[1], line)))
+            self.block_lines(a[2], ind + 1)
             self.put(ind, '}')
             return
         if k == 'match' and (n.ty is None or n.ty == T_UNIT):
@@ -551,7 +571,7 @@ def getattr_inline(n):
 
 def is_stmt(n):
     """statement forms need a `;` even in last position (their value is unit)"""
-    return n.k in ('let', 'letp', 'assign', 'while', 'for', 'return', 'break', 'continue') or \
+    return n.k in ('let', 'letp', 'assign', 'while', 'for', 'foreach', 'return', 'break', 'continue') or \
         (n.k == 'call' and n.a[0] in ('println', 'print')) or n.k == 'assert' or \
         (n.k in ('if', 'match') and (n.ty is None or n.ty == T_UNIT)) or (n.ty == T_UNIT and n.k in ('meth', 'call', 'callv'))
 
@@ -621,6 +641,8 @@ def sx(n):
         return '(while %s %s)' % (sx(a[0]), sx_block(a[1]))
     if k == 'for':
         return '(for %s %s %s %s)' % (a[0], sx(a[1]), sx(a[2]), sx_block(a[3]))
+    if k == 'foreach':
+        return '(foreach %s %s %s)' % (a[0], sx(a[1]), sx_block(a[2]))
     if k == 'break':
         return '(break)'
     if k == 'continue':
@@ -1827,6 +1849,533 @@ def s_aggarray(g, sc, out, ctx):
         g.feat('agg-clone')
 
 
+# ----------------------------------------------------------------------------------------------- matches on Char / String / tuples / UInt8
+CHAR_POOL = [ord(c) for c in 'abcxyzAZ09_#~'] + [0xE9, 0x161, 0x20AC, 0x1F600]
+STR_POOL = ['a', 'xy', 'dora', '', 'q-7', 'é', '€u', 'ok:', '#', 'Zz', 'dor', 'doraa', 'A', ' ', 'xyz']
+
+
+def char_expr(g, cp):
+    """a Char with code point cp: a literal where the source text allows one, else a conversion"""
+    if cp in CHAR_POOL or (33 <= cp <= 126 and chr(cp) not in '\'"\\$'):
+        return lit(T_CHAR, cp)
+    g.feat('conv')
+    if g.r.random() < 0.5:
+        return meth('to_char_unchecked', lit(T_I32, cp), ty=T_CHAR)
+    return meth('get_or_panic', meth('to_char', lit(T_I64, cp), ty=t_option(T_CHAR)), ty=T_CHAR)
+
+
+def is_scalar(cp):
+    return 0 <= cp <= 0x10FFFF and not (0xD800 <= cp <= 0xDFFF)
+
+
+def through(g, e):
+    """the expression itself or routed through the generic identity (so it is not a constant at the use)"""
+    return call('gid', ('targs', e.ty), e, ty=e.ty) if g.r.random() < 0.4 else e
+
+
+def show_calls(g, out, fn, args, tag):
+    for i in range(0, len(args), 4):
+        out.append(g.show(*[call(fn, through(g, a), ty=T_I64) for a in args[i:i + 4]], tag=tag))
+
+
+def s_charstrmatch(g, sc, out, ctx):
+    """match on Char / String scrutinees with literal arms and a default, on tuples of small integers / Bools with
+    literal sub-patterns, on UInt8 — as functions called with every literal, its neighbours and look-alikes, and as
+    statements inside loops that update local state"""
+    r = g.r
+    kind = r.choice(['char', 'string', 'tuple', 'tuple', 'u8'])
+    fn = g.fresh('cm')
+    g.feat('match', 'litmatch', 'litmatch-' + kind)
+    g.boundary = True
+    default = ('pvar', 'o') if r.random() < 0.3 else ('pwild',)
+    if kind == 'char':
+        lits = r.sample(CHAR_POOL, r.randint(2, 7))
+        arms = [(('plit', T_CHAR, c), lit(T_I64, 10 * (i + 1) + c % 7)) for i, c in enumerate(lits)]
+        arms.append((default, lit(T_I64, -5)))
+        g.decls.append(fn_decl(fn, [('x', T_CHAR)], T_I64, block(N('match', var('x', T_CHAR), arms, ty=T_I64))))
+        sel = set(lits)
+        for c in lits[:4]:
+            sel.update([c - 1, c + 1, c + 256, c + 65536, c ^ 0x20, c - 256])
+        sel.update([0, 0x7F, 0x80, 0xFF, 0xD7FF, 0xE000, 0x10FFFF])
+        sel = sorted(c for c in sel if is_scalar(c))
+        if len(sel) > 20:
+            keep = set(lits)
+            rest = [c for c in sel if c not in keep]
+            r.shuffle(rest)
+            sel = sorted(keep | set(rest[:20 - len(keep)]))
+        show_calls(g, out, fn, [char_expr(g, c) for c in sel], 'cm')
+        # statement form inside a loop over an array of scrutinees
+        aty = t_array(T_CHAR)
+        arr, acc, k = g.fresh('ca'), g.fresh('m'), g.fresh('k')
+        picks = [r.choice(sel) for _ in range(r.randint(3, 6))]
+        out.append(let(arr, aty, scall(aty, 'new', *[char_expr(g, c) for c in picks], ty=aty)))
+        out.append(let(acc, T_I64, lit(T_I64, 1), mut=True))
+        sarms = [(('plit', T_CHAR, c), block(assign(var(acc, T_I64), binop('add', var(acc, T_I64), lit(T_I64, i + 2), ty=T_I64))))
+                 for i, c in enumerate(lits[:3])]
+        sarms.append((('pwild',), block(assign(var(acc, T_I64), binop('mod', binop('mul', var(acc, T_I64), lit(T_I64, 3), ty=T_I64),
+                                                                      lit(T_I64, 1000), ty=T_I64)))))
+        out.append(N('for', k, lit(T_I64, 0), meth('size', var(arr, aty), ty=T_I64),
+                     block(N('match', N('index', var(arr, aty), var(k, T_I64), ty=T_CHAR), sarms))))
+        out.append(g.show(var(acc, T_I64), tag='acc'))
+        g.feat('char', 'for', 'array')
+    elif kind == 'string':
+        lits = r.sample(STR_POOL, r.randint(2, 6))
+        arms = [(('plit', T_STR, s), lit(T_I64, 10 * (i + 1) + len(s))) for i, s in enumerate(lits)]
+        arms.append((default, lit(T_I64, -5)))
+        g.decls.append(fn_decl(fn, [('x', T_STR)], T_I64, block(N('match', var('x', T_STR), arms, ty=T_I64))))
+        es = []
+        for s in lits:
+            es.append(lit(T_STR, s))
+            if len(s) >= 2:
+                h = r.randint(1, len(s) - 1)
+                es.append(binop('add', lit(T_STR, s[:h]), lit(T_STR, s[h:]), ty=T_STR))     # equal content, another object
+                es.append(template(s[:h], lit(T_STR, s[h:])))
+            es.append(lit(T_STR, s + r.choice(['x', ' ', 'a'])))
+            if s:
+                es.append(lit(T_STR, s[:-1]))
+                if s.swapcase() != s:
+                    es.append(lit(T_STR, s.swapcase()))
+        es += [lit(T_STR, s) for s in r.sample(STR_POOL, 3)]
+        if len(es) > 20:
+            r.shuffle(es)
+            es = es[:20]
+        show_calls(g, out, fn, es, 'sm')
+        # the value of a match used inside a larger expression, scrutinee computed at run time
+        k, acc = g.fresh('k'), g.fresh('m')
+        out.append(let(acc, T_I64, lit(T_I64, 0), mut=True))
+        pre = r.choice(['a', 'x', 'do', ''])
+        smatch = N('match', template(pre, var(k, T_I64)),
+                   [(('plit', T_STR, pre + '1'), lit(T_I64, 100)), (('plit', T_STR, pre + '3'), lit(T_I64, 300)),
+                    (('pwild',), var(k, T_I64))], ty=T_I64)
+        out.append(N('for', k, lit(T_I64, 0), lit(T_I64, 5), block(assign(var(acc, T_I64), binop('add', var(acc, T_I64), smatch, ty=T_I64)))))
+        out.append(g.show(var(acc, T_I64), tag='acc'))
+        g.feat('string', 'for', 'template')
+    elif kind == 'u8':
+        vals = sorted(r.sample([0, 1, 2, 9, 10, 64, 100, 126, 127, 128, 129, 200, 254, 255], r.randint(3, 7)))
+        order = list(vals)
+        r.shuffle(order)
+        arms = [(('plit', T_U8, v), lit(T_I64, 10 * (i + 1) + v % 7)) for i, v in enumerate(order)]
+        arms.append((default, lit(T_I64, -5)))
+        g.decls.append(fn_decl(fn, [('x', T_U8)], T_I64, block(N('match', var('x', T_U8), arms, ty=T_I64))))
+        es = [lit(T_U8, v) for v in sorted(set(vals) | {0, 255, 127, 128} | {min(255, v + 1) for v in vals} | {max(0, v - 1) for v in vals})]
+        # the scrutinee is the low byte of a wider value: 256 + v, -1, 2^32 + v ...
+        for v in vals[:3]:
+            for wide in (v + 256, v - 256, v + 2 ** 32, v + 65536):
+                t = T_I32 if -2 ** 31 <= wide < 2 ** 31 and r.random() < 0.5 else T_I64
+                es.append(meth('to_uint8', lit(t, wide), ty=T_U8))
+        g.feat('conv', 'u8')
+        if len(es) > 24:
+            r.shuffle(es)
+            es = es[:24]
+        show_calls(g, out, fn, es, 'um')
+    else:
+        shape = r.choice([(T_I32, T_BOOL), (T_U8, T_U8), (T_BOOL, T_BOOL), (T_I64, T_CHAR), (T_BOOL, T_U8), (T_I32, T_I32),
+                          (T_BOOL, T_BOOL, T_BOOL), (T_U8, T_BOOL, T_I32)])
+        tty = t_tuple(*shape)
+
+        def vals_of(t):
+            if t == T_BOOL:
+                return [True, False]
+            if t == T_U8:
+                return [0, 1, 127, 128, 255]
+            if t == T_CHAR:
+                return [ord('a'), ord('b'), 0xE9]
+            if t == T_I32:
+                return [0, 1, -1, 2, 2 ** 31 - 1, -2 ** 31]
+            return [0, 1, -1, 2 ** 32, 2 ** 63 - 1, -2 ** 63]
+        all_bool = all(t == T_BOOL for t in shape)
+        rows = []
+        arms = []
+        if all_bool:
+            combos = [[bool(m >> j & 1) for j in range(len(shape))] for m in range(2 ** len(shape))]
+            r.shuffle(combos)
+            full = r.random() < 0.5
+            use = combos if full else combos[:-2]
+            for i, c in enumerate(use):
+                arms.append((('ptuple',) + tuple(('plit', T_BOOL, b) for b in c), lit(T_I64, i + 1)))
+            if not full:
+                arms.append((('pwild',), lit(T_I64, -5)))
+            rows = combos
+        else:
+            seen = set()
+            first_lits = []
+            for i in range(r.randint(2, 4)):
+                c = tuple(r.choice(vals_of(t)[:4]) for t in shape)
+                if c in seen:
+                    continue
+                seen.add(c)
+                first_lits.append(c[0])
+                arms.append((('ptuple',) + tuple(('plit', t, v) for t, v in zip(shape, c)), lit(T_I64, 10 * (i + 1))))
+            rows = [list(c) for c in seen]
+            # a row with a literal in the last position only (first positions bound / ignored): useful as long as the
+            # leading type has a value not used above
+            j = len(shape) - 1
+            lastv = r.choice(vals_of(shape[j]))
+            if shape[0] != T_BOOL:
+                bind = shape[0] in INT_RANGE and r.random() < 0.6
+                ps = [('pvar', 'n') if bind else ('pwild',)] + [('pwild',)] * (len(shape) - 2) + [('plit', shape[j], lastv)]
+                body = binop('add', lit(T_I64, 1000), meth('to_int64', var('n', shape[0]), ty=T_I64) if shape[0] == T_I32
+                             else binop('mod', var('n', T_I64), lit(T_I64, 1000), ty=T_I64), ty=T_I64) if bind else lit(T_I64, 77)
+                arms.append((('ptuple',) + tuple(ps), body))
+            arms.append((default, lit(T_I64, -5)))
+            for c in list(rows):
+                for j2 in range(len(shape)):
+                    for v in vals_of(shape[j2]):
+                        d = list(c)
+                        d[j2] = v
+                        rows.append(d)
+            uniq = []
+            for c in rows:
+                if c not in uniq:
+                    uniq.append(c)
+            r.shuffle(uniq)
+            rows = uniq[:16]
+        g.decls.append(fn_decl(fn, [('x', tty)], T_I64, block(N('match', var('x', tty), arms, ty=T_I64))))
+        es = [N('tuple', *[lit(t, v) for t, v in zip(shape, c)], ty=tty) for c in rows]
+        show_calls(g, out, fn, es, 'tm')
+        g.feat('tuple')
+
+
+# ----------------------------------------------------------------------------------------------- loops
+def s_loops(g, sc, out, ctx):
+    """`for` over ranges with boundary bounds, over arrays and vectors (also changed while iterated), nested loops with
+    break / continue in inner and outer position, `while` with several exits, `return` out of nested loops inside a
+    match arm"""
+    r = g.r
+    kind = r.choice(['range', 'foreach', 'nested', 'while-exits', 'return'])
+    g.feat('loops', 'loop-' + kind)
+    MAX, MIN = INT_RANGE[T_I64][1], INT_RANGE[T_I64][0]
+    if kind == 'range':
+        acc = g.fresh('m')
+        out.append(let(acc, T_I64, lit(T_I64, 0), mut=True))
+        for lo, hi, brk in r.sample([(0, 0, None), (5, 5, None), (3, 2, None), (-3, 1, None), (7, 8, None), (MAX - 3, MAX, MAX - 2),
+                                     (MAX - 2, MAX, None), (MAX, MAX, None), (MIN, MIN + 2, None), (MIN, MIN, None), (-1, 0, None),
+                                     (2 ** 31 - 1, 2 ** 31 + 1, None), (-2 ** 31 - 1, -2 ** 31 + 1, None), (1, -1, None)], 4):
+            k = g.fresh('k')
+            body = [print_(template(var(k, T_I64), ','))]
+            if brk is not None:
+                body.append(N('if', binop('eq', var(k, T_I64), lit(T_I64, brk), ty=T_BOOL), block(N('break')), None))
+                g.feat('break-continue')
+            body.append(assign(var(acc, T_I64), meth('wrapping_add', var(acc, T_I64), var(k, T_I64), ty=T_I64)))
+            lo_e = lit(T_I64, lo) if r.random() < 0.6 else through(g, lit(T_I64, lo))
+            out.append(N('for', k, lo_e, lit(T_I64, hi), block(*body)))
+            out.append(g.show(var(acc, T_I64), tag='r'))
+        g.boundary = True
+        g.feat('for', 'wrapping')
+    elif kind == 'foreach':
+        vec = r.random() < 0.5
+        et = r.choice([T_I64, T_I32, T_U8, T_STR, t_tuple(T_I32, T_U8)])
+        cty = (t_vec if vec else t_array)(et)
+        n = r.choice([0, 1, 3, 4, 6])
+
+        def el(i):
+            if et == T_STR:
+                return lit(T_STR, TEXTS[i % len(TEXTS)])
+            if et[0] == 'Tuple':
+                return N('tuple', lit(T_I32, 100 * i - 7), lit(T_U8, (i * 77 + 130) % 256), ty=et)
+            return lit(et, (i * 37 + 3) % 200)
+        c = g.fresh('fc')
+        out.append(let(c, cty, scall(cty, 'new', *[el(i) for i in range(n)], ty=cty)))
+        x = g.fresh('x')
+        cnt = g.fresh('m')
+        out.append(let(cnt, T_I64, lit(T_I64, 0), mut=True))
+        shown = [N('tget', var(x, et), 0, ty=T_I32), N('tget', var(x, et), 1, ty=T_U8)] if et[0] == 'Tuple' else [var(x, et)]
+        body = [assign(var(cnt, T_I64), binop('add', var(cnt, T_I64), lit(T_I64, 1), ty=T_I64))]
+        mode = r.choice(['plain', 'continue', 'break', 'mutate'])
+        if mode == 'continue':
+            body.append(N('if', binop('eq', var(cnt, T_I64), lit(T_I64, 2), ty=T_BOOL), block(N('continue')), None))
+        if mode == 'break':
+            body.append(N('if', binop('eq', var(cnt, T_I64), lit(T_I64, r.choice([1, 3])), ty=T_BOOL), block(N('break')), None))
+        if mode == 'mutate' and n >= 2:
+            # the element after the current one is replaced while the loop runs: the loop sees the new value; a vector
+            # that grows during the loop is iterated up to its length at the start
+            body.append(N('if', binop('eq', var(cnt, T_I64), lit(T_I64, 1), ty=T_BOOL),
+                          block(assign(N('index', var(c, cty), lit(T_I64, 1), ty=et), el(9)),
+                                *( [N('meth', 'push', var(c, cty), el(8), ty=T_UNIT)] if vec else [])), None))
+            g.feat('loop-mutate-during')
+        parts = []
+        for e in shown:
+            parts += [e, ',']
+        body.append(print_(template(*(parts[:-1] + [';']))))
+        out.append(N('foreach', x, var(c, cty), block(*body)))
+        out.append(g.show(var(cnt, T_I64), meth('size', var(c, cty), ty=T_I64), tag='fe'))
+        g.feat('foreach', 'vec' if vec else 'array', 'break-continue')
+    elif kind == 'nested':
+        i, j, acc = g.fresh('k'), g.fresh('m'), g.fresh('m')
+        n, m = r.randint(2, 5), r.randint(3, 6)
+        a, b, c2, d = r.randrange(n), r.randint(1, m), r.randint(1, m), r.randrange(n)
+        out.append(let(acc, T_I64, lit(T_I64, 0), mut=True))
+        inner = [assign(var(j, T_I64), binop('add', var(j, T_I64), lit(T_I64, 1), ty=T_I64)),
+                 N('if', binop('eq', var(j, T_I64), lit(T_I64, b), ty=T_BOOL), block(N('continue')), None),
+                 N('if', N('andalso', binop('eq', var(j, T_I64), lit(T_I64, c2), ty=T_BOOL),
+                           binop('ne', var(i, T_I64), lit(T_I64, d), ty=T_BOOL), ty=T_BOOL), block(N('break')), None),
+                 assign(var(acc, T_I64), binop('add', var(acc, T_I64), binop('mul', var(i, T_I64), lit(T_I64, 10), ty=T_I64), ty=T_I64)),
+                 print_(template(var(i, T_I64), '.', var(j, T_I64), ' '))]
+        outer = [N('if', binop('eq', var(i, T_I64), lit(T_I64, a), ty=T_BOOL), block(N('continue')), None),
+                 let(j, T_I64, lit(T_I64, 0), mut=True),
+                 N('while', binop('lt', var(j, T_I64), lit(T_I64, m), ty=T_BOOL), block(*inner)),
+                 N('if', binop('gt', var(acc, T_I64), lit(T_I64, r.choice([20, 60, 1000])), ty=T_BOOL), block(N('break')), None)]
+        if r.random() < 0.5:
+            # a second inner loop (a range) whose break must not end the outer one
+            k2 = g.fresh('k')
+            outer.insert(3, N('for', k2, lit(T_I64, 0), lit(T_I64, 4),
+                              block(N('if', binop('ge', var(k2, T_I64), var(i, T_I64), ty=T_BOOL), block(N('break')), None),
+                                    assign(var(acc, T_I64), binop('add', var(acc, T_I64), lit(T_I64, 1), ty=T_I64)))))
+        out.append(N('for', i, lit(T_I64, 0), lit(T_I64, n), block(*outer)))
+        out.append(g.show(var(acc, T_I64), tag='nest'))
+        g.feat('for', 'while', 'break-continue', 'bool')
+    elif kind == 'while-exits':
+        k, acc = g.fresh('m'), g.fresh('m')
+        lim = r.randint(4, 12)
+        out.append(let(k, T_I64, lit(T_I64, r.choice([0, -2, 1])), mut=True))
+        out.append(let(acc, T_I64, lit(T_I64, 0), mut=True))
+        body = [assign(var(k, T_I64), binop('add', var(k, T_I64), lit(T_I64, 1), ty=T_I64)),
+                N('if', binop('eq', binop('mod', var(k, T_I64), lit(T_I64, 3), ty=T_I64), lit(T_I64, 0), ty=T_BOOL), block(N('continue')), None),
+                N('if', binop('gt', var(acc, T_I64), lit(T_I64, r.choice([5, 17, 40])), ty=T_BOOL), block(println(template('exit-a')), N('break')), None),
+                assign(var(acc, T_I64), binop('add', var(acc, T_I64), var(k, T_I64), ty=T_I64)),
+                N('if', binop('ge', var(k, T_I64), lit(T_I64, lim), ty=T_BOOL), block(println(template('exit-b')), N('break')), None),
+                print_(template(var(k, T_I64), ':', var(acc, T_I64), ' '))]
+        out.append(N('while', lit(T_BOOL, True) if r.random() < 0.5 else binop('lt', var(k, T_I64), lit(T_I64, lim + 3), ty=T_BOOL), block(*body)))
+        out.append(g.show(var(k, T_I64), var(acc, T_I64), tag='we'))
+        g.feat('while', 'break-continue')
+    else:
+        fn = g.fresh('lp')
+        T = r.choice([2, 4, 7])
+        i, j, acc = 'i', 'j', 'acc'
+        marms = [(('plit', T_I64, 0), block(assign(var(acc, T_I64), binop('add', var(acc, T_I64), lit(T_I64, 1), ty=T_I64)))),
+                 (('plit', T_I64, 3), block(N('if', binop('gt', var(acc, T_I64), lit(T_I64, T), ty=T_BOOL),
+                                              block(N('return', binop('add', binop('mul', var(acc, T_I64), lit(T_I64, 100), ty=T_I64), var(i, T_I64), ty=T_I64))), None))),
+                 (('pwild',), block(N('if', binop('eq', var(j, T_I64), lit(T_I64, 2), ty=T_BOOL),
+                                      block(assign(var(j, T_I64), binop('add', var(j, T_I64), lit(T_I64, 2), ty=T_I64)), N('continue')), None)))]
+        wbody = [N('match', binop('mod', binop('add', binop('mul', var(i, T_I64), var('m', T_I64), ty=T_I64), var(j, T_I64), ty=T_I64),
+                                 lit(T_I64, 5), ty=T_I64), marms),
+                 assign(var(j, T_I64), binop('add', var(j, T_I64), lit(T_I64, 1), ty=T_I64))]
+        body = block(let(acc, T_I64, lit(T_I64, 0), mut=True),
+                     N('for', i, lit(T_I64, 0), var('n', T_I64),
+                       block(let(j, T_I64, lit(T_I64, 0), mut=True),
+                             N('while', binop('lt', var(j, T_I64), var('m', T_I64), ty=T_BOOL), block(*wbody)))),
+                     unop('neg', var(acc, T_I64), ty=T_I64))
+        g.decls.append(fn_decl(fn, [('n', T_I64), ('m', T_I64)], T_I64, body))
+        args = r.sample([(0, 0), (1, 1), (2, 3), (3, 5), (4, 4), (5, 2), (6, 7), (1, 9), (0, 5)], 4)
+        out.append(g.show(*[call(fn, lit(T_I64, a), through(g, lit(T_I64, b)), ty=T_I64) for a, b in args], tag='lp'))
+        g.feat('return', 'match', 'intmatch', 'for', 'while', 'break-continue', 'call')
+
+
+# ----------------------------------------------------------------------------------------------- conversions
+def s_convert(g, sc, out, ctx):
+    """integer / Char / Bool / UInt8 conversions of pkgs/std/primitives.dora at their boundaries, chained: narrowing
+    conversions keep the low bits, widening ones are exact, `to_char` refuses non-scalar values, `overflowing_*` report
+    the wrap, hexadecimal / binary rendering uses the unsigned reading"""
+    r = g.r
+    g.feat('convert', 'conv')
+    g.boundary = True
+    I64C = [0, 1, -1, 127, 128, 255, 256, -128, -129, -256, 32767, 32768, 65535, 65536, 2 ** 31 - 1, 2 ** 31, -2 ** 31, -2 ** 31 - 1,
+            2 ** 32 - 1, 2 ** 32, 2 ** 32 + 255, 2 ** 40 + 128, 2 ** 63 - 1, -2 ** 63, 0xD7FF, 0xD800, 0xDFFF, 0xE000, 0x10FFFF, 0x110000]
+    I32C = [0, 1, -1, 127, 128, 255, 256, -128, -129, 65535, 65536, 2 ** 31 - 1, -2 ** 31, 0xD7FF, 0xD800, 0xE000, 0x10FFFF, 0x110000, -256]
+
+    def src(t, v):
+        c = r.random()
+        if c < 0.4:
+            return lit(t, v)
+        if c < 0.7:
+            return call('gid', ('targs', t), lit(t, v), ty=t)
+        nm = g.fresh('v')
+        out.append(let(nm, t, lit(t, v)))
+        return var(nm, t)
+
+    def opt_char_code(e):
+        """Option[Char] -> Int64: the code point or -1"""
+        x = g.fresh('b')
+        return N('match', e, [(('pvariant', 'Option', 'Some', ('pvar', x)), meth('to_int64', var(x, T_CHAR), ty=T_I64)),
+                              (('pvariant', 'Option', 'None'), lit(T_I64, -1))], ty=T_I64)
+    for _ in range(r.randint(3, 5)):
+        c = r.choice(['i64', 'i64', 'i32', 'u8', 'char', 'bool', 'ovf', 'hex'])
+        g.feat('convert-' + c)
+        if c == 'i64':
+            v = r.choice(I64C)
+            e = src(T_I64, v)
+            a = meth('to_int32', e, ty=T_I32)
+            out.append(g.show(a, meth('to_uint8', e, ty=T_U8), meth('to_int64', meth('to_int32', e, ty=T_I32), ty=T_I64),
+                              meth('to_uint8', meth('to_int32', e, ty=T_I32), ty=T_U8),
+                              meth('to_int64', meth('to_uint8', e, ty=T_U8), ty=T_I64), opt_char_code(meth('to_char', e, ty=t_option(T_CHAR))),
+                              tag='c64'))
+        elif c == 'i32':
+            v = r.choice(I32C)
+            e = src(T_I32, v)
+            out.append(g.show(meth('to_int64', e, ty=T_I64), meth('to_uint8', e, ty=T_U8),
+                              meth('to_int32', meth('to_uint8', e, ty=T_U8), ty=T_I32),
+                              meth('to_int32', meth('to_int64', e, ty=T_I64), ty=T_I32),
+                              opt_char_code(meth('to_char', e, ty=t_option(T_CHAR))), tag='c32'))
+        elif c == 'u8':
+            v = r.choice([0, 1, 127, 128, 200, 255])
+            e = src(T_U8, v)
+            out.append(g.show(meth('to_int32', e, ty=T_I32), meth('to_int64', e, ty=T_I64),
+                              meth('to_int32', meth('to_char', e, ty=T_CHAR), ty=T_I32),
+                              meth('to_uint8', binop('add', meth('to_int32', e, ty=T_I32), lit(T_I32, r.choice([1, 128, 256, 257])), ty=T_I32), ty=T_U8),
+                              meth('to_uint8', binop('sub', meth('to_int64', e, ty=T_I64), lit(T_I64, r.choice([1, 256, 300])), ty=T_I64), ty=T_U8),
+                              tag='c8'))
+        elif c == 'char':
+            cp = r.choice([0x41, 0x7F, 0x80, 0xFF, 0x100, 0x7FF, 0x800, 0xFFFF, 0x10000, 0x10FFFF, 0xD7FF, 0xE000, 0x20AC])
+            e = char_expr(g, cp)
+            out.append(g.show(meth('to_int32', e, ty=T_I32), meth('to_int64', e, ty=T_I64), meth('len_utf8', e, ty=T_I32),
+                              meth('to_uint8', meth('to_int32', e, ty=T_I32), ty=T_U8),
+                              opt_char_code(meth('to_char', binop('add', meth('to_int64', e, ty=T_I64), lit(T_I64, 1), ty=T_I64), ty=t_option(T_CHAR))),
+                              tag='cc'))
+            g.feat('char')
+        elif c == 'bool':
+            b = g.bool_expr(sc, 1)
+            out.append(g.show(meth('to_int32', b, ty=T_I32), meth('to_int64', lit(T_BOOL, r.random() < 0.5), ty=T_I64),
+                              meth('to_uint8', meth('to_int64', lit(T_BOOL, True), ty=T_I64), ty=T_U8), tag='cb'))
+        elif c == 'ovf':
+            t = r.choice([T_I32, T_I64])
+            lo, hi = INT_RANGE[t]
+            op = r.choice(['add', 'sub', 'mul'])
+            a = r.choice([hi, lo, hi - 1, lo + 1, -1, 1, 2, hi // 2 + 1, lo // 2, 3037000500 if t == T_I64 else 46341])
+            b = r.choice([1, -1, 2, hi, lo, 0, a])
+            nm = g.fresh('t')
+            tt = t_tuple(t, T_BOOL)
+            out.append(let(nm, tt, meth('overflowing_' + op, src(t, a), lit(t, b), ty=tt)))
+            out.append(g.show(N('tget', var(nm, tt), 0, ty=t), N('tget', var(nm, tt), 1, ty=T_BOOL),
+                              N('tget', meth('overflowing_neg', lit(t, r.choice([lo, hi, 0, -1])), ty=tt), 1, ty=T_BOOL), tag='ov'))
+            g.feat('wrapping', 'tuple')
+        else:
+            t = r.choice([T_I32, T_I64, T_U8])
+            v = r.choice([0, 1, 127, 128, 255]) if t == T_U8 else r.choice(I32C if t == T_I32 else I64C)
+            e = src(t, v)
+            out.append(g.show(meth('to_string_hex', e, ty=T_STR), meth('to_string_binary', e, ty=T_STR), tag='hx'))
+            g.feat('string')
+
+
+# ----------------------------------------------------------------------------------------------- field widths
+FW_LAYOUTS = [[T_U8, T_I64, T_BOOL, T_I32, T_CHAR], [T_BOOL, T_I32, T_U8, T_I64], [T_I32, T_U8, T_U8, T_I64, T_BOOL],
+              [T_CHAR, T_U8, T_I64, T_U8], [T_U8, T_U8, T_I32, T_BOOL, T_BOOL, T_I64], [T_I64, T_U8, T_I32, T_U8],
+              [T_BOOL, T_CHAR, T_BOOL, T_I32], [T_U8, T_I32, T_U8, T_I32, T_U8]]
+FW_ONES = {T_U8: 255, T_BOOL: True, T_I32: -1, T_I64: -1, T_CHAR: 0x10FFFF}
+FW_VALS = {T_U8: [0, 0x80, 0x7F, 1, 0xFE], T_BOOL: [False, True], T_I32: [0, 0x80, 2 ** 31 - 1, -2 ** 31, 0xFF, -256, 0x7FFF8000],
+           T_I64: [0, 0x80, 2 ** 63 - 1, -2 ** 63, 0xFFFFFFFF, -4294967296, 0x0102030405060708, 0xFF],
+           T_CHAR: [0, 0x61, 0xFF, 0xFFFF, 0x10000, 0x80]}
+
+
+def fw_lit(g, t, v):
+    if t == T_CHAR:
+        return char_expr(g, v)
+    return lit(t, v)
+
+
+def fw_shown(e, t):
+    return meth('to_int32', e, ty=T_I32) if t == T_CHAR else e
+
+
+def s_fieldwidth(g, sc, out, ctx):
+    """records mixing UInt8 / Bool / Int32 / Int64 / Char fields in orders that need padding: every field starts as
+    all-ones, then each is written with a boundary value in ascending and in descending field order and everything is
+    read back after every pass (a store wider than its field damages the neighbour written before it); the same record
+    lives in a local, a class, a class field, an array element, a tuple, an enum payload, a captured variable, a global"""
+    r = g.r
+    layout = r.choice(FW_LAYOUTS)
+    home = r.choice(['local', 'class', 'class-field', 'array-elem', 'tuple', 'enum', 'captured', 'global'])
+    g.feat('fieldwidth', 'fw-' + home)
+    g.boundary = True
+    nf = len(layout)
+    ones = [fw_lit(g, t, FW_ONES[t]) for t in layout]
+    passes = [[r.choice(FW_VALS[t]) for t in layout] for _ in range(2)]
+    if home == 'tuple':
+        ty = t_tuple(*layout)
+        nm = g.fresh('ft')
+        out.append(let(nm, ty, N('tuple', *ones, ty=ty), mut=True))
+        place = lambda j: N('tget', var(nm, ty), j, ty=layout[j])
+    elif home == 'enum':
+        en = g.fresh('Fe')
+        g.decls.append(dict(k='enum', name=en, variants=[('A', list(layout)), ('B', [T_U8]), ('C', [])]))
+        ety = t_enum(en)
+        names = ['w%d' % j for j in range(nf)]
+        fn = g.fresh('fe')
+        marms = [(('pvariant', en, 'A') + tuple(('pvar', x) for x in names),
+                  block(g.show(*[fw_shown(var(x, t), t) for x, t in zip(names, layout)], tag='A'))),
+                 (('pvariant', en, 'B', ('pvar', 'b')), block(g.show(var('b', T_U8), tag='B'))),
+                 (('pvariant', en, 'C'), block(println(template('C'))))]
+        g.decls.append(fn_decl(fn, [('e', ety)], T_UNIT, block(N('match', var('e', ety), marms))))
+        for vals in [None] + passes:
+            fs = ones if vals is None else [fw_lit(g, t, v) for t, v in zip(layout, vals)]
+            out.append(call(fn, N('variant', en, 'A', *fs, ty=ety), ty=T_UNIT))
+        # an array of such values next to the small variants
+        aty = t_array(ety)
+        arr = g.fresh('fa')
+        out.append(let(arr, aty, scall(aty, 'new', N('variant', en, 'B', lit(T_U8, 0x80), ty=ety),
+                                       N('variant', en, 'A', *[fw_lit(g, t, v) for t, v in zip(layout, passes[0])], ty=ety),
+                                       N('variant', en, 'C', ty=ety), ty=aty)))
+        out.append(assign(N('index', var(arr, aty), lit(T_I64, 0), ty=ety), N('index', var(arr, aty), lit(T_I64, 1), ty=ety)))
+        k = g.fresh('k')
+        out.append(N('for', k, lit(T_I64, 0), lit(T_I64, 3), block(call(fn, N('index', var(arr, aty), var(k, T_I64), ty=ety), ty=T_UNIT))))
+        g.feat('enum', 'match', 'array', 'for')
+        return
+    else:
+        as_class = home == 'class'
+        sn = g.fresh('Fw')
+        fields = [('w%d' % j, t) for j, t in enumerate(layout)]
+        g.decls.append(dict(k='class' if as_class else 'struct', name=sn, fields=fields))
+        ty = t_class(sn) if as_class else t_struct(sn)
+        mk = N('new', sn, list(zip([f for f, _ in fields], ones)), ty=ty)
+        if home in ('local', 'class', 'captured'):
+            nm = g.fresh('fw')
+            out.append(let(nm, ty, mk, mut=not as_class))
+            root = lambda: var(nm, ty)
+        elif home == 'class-field':
+            cn = g.fresh('Fh')
+            g.decls.append(dict(k='class', name=cn, fields=[('pre', T_U8), ('st', ty), ('post', T_U8)]))
+            nm = g.fresh('fh')
+            cty = t_class(cn)
+            out.append(let(nm, cty, N('new', cn, [('pre', lit(T_U8, 0x55)), ('st', mk), ('post', lit(T_U8, 0xAA))], ty=cty)))
+            root = lambda: N('field', var(nm, cty), 'st', ty=ty)
+        elif home == 'array-elem':
+            aty = t_array(ty)
+            nm = g.fresh('fa')
+            ln = r.choice([1, 2, 3])
+            idx = r.randrange(ln)
+            out.append(let(nm, aty, scall(aty, 'fill', lit(T_I64, ln), mk, ty=aty)))
+            root = lambda: N('index', var(nm, aty), lit(T_I64, idx), ty=ty)
+        else:
+            nm = 'GW%d' % g.uid
+            g.uid += 1
+            g.decls.insert(len(g.decls), dict(k='global', name=nm, ty=ty, mut=True, init=mk))
+            root = lambda: var(nm, ty)
+            g.feat('global')
+        place = lambda j: N('field', root(), fields[j][0], ty=layout[j])
+    show_all = lambda tag: out.append(g.show(*[fw_shown(place(j), layout[j]) for j in range(nf)], tag=tag))
+    if home == 'captured':
+        # the record is a captured variable of a lambda that writes it; the enclosing function reads it
+        fty = t_fn([T_I64], T_I64)
+        f = g.fresh('f')
+        vals = passes[0]
+        body = [assign(place(j), fw_lit(g, layout[j], vals[j])) for j in range(nf)]
+        body.append(binop('add', var('x', T_I64), lit(T_I64, 1), ty=T_I64))
+        out.append(let(f, fty, N('lambda', [('x', T_I64)], T_I64, block(*body), ty=fty)))
+        show_all('w0')
+        out.append(g.show(N('callv', var(f, fty), lit(T_I64, 1), ty=T_I64), tag='cl'))
+        show_all('w1')
+        g.feat('lambda', 'capture-mut')
+        passes = passes[1:]
+    else:
+        show_all('w0')
+    for pi, vals in enumerate(passes):
+        order = list(range(nf)) if pi % 2 == 0 else list(range(nf - 1, -1, -1))
+        for j in order:
+            out.append(assign(place(j), fw_lit(g, layout[j], vals[j])))
+        show_all('w%d' % (pi + 2))
+    # one more single store between two reads: the two neighbours must keep their values
+    j = r.randrange(nf)
+    out.append(assign(place(j), fw_lit(g, layout[j], FW_ONES[layout[j]])))
+    show_all('w9')
+    if home in ('local', 'array-elem', 'class-field', 'global'):
+        # a copy of the record is a value: changing the copy leaves the original
+        cp = g.fresh('fw')
+        out.append(let(cp, ty, root(), mut=True))
+        out.append(assign(N('field', var(cp, ty), fields[j][0], ty=layout[j]), fw_lit(g, layout[j], r.choice(FW_VALS[layout[j]]))))
+        out.append(g.show(fw_shown(N('field', var(cp, ty), fields[j][0], ty=layout[j]), layout[j]), fw_shown(place(j), layout[j]), tag='cp'))
+        g.feat('struct-copy')
+    g.feat('struct' if home != 'class' else 'class')
+
+
 def s_option(g, sc, out, ctx):
     r = g.r
     t = r.choice([T_I32, T_I64, T_BOOL, T_CHAR])
@@ -2093,7 +2642,9 @@ def s_return(g, sc, out, ctx):
 
 SCENARIOS = [(s_lets, 5), (s_print, 4), (s_assign, 3), (s_if, 3), (s_while, 2), (s_for, 2), (s_tuple, 2),
              (s_struct, 2), (s_class, 2), (s_enum, 2), (s_option, 2), (s_array, 2), (s_vec, 2), (s_lambda, 2),
-             (s_trait, 2), (s_calls, 3), (s_pressure, 1), (s_probe, 4), (s_global, 1), (s_intmatch, 2), (s_aggarray, 2)]
+             (s_trait, 2), (s_calls, 3), (s_pressure, 1), (s_probe, 4), (s_global, 1), (s_intmatch, 2), (s_aggarray, 2),
+             (s_charstrmatch, 2), (s_loops, 2), (s_convert, 2), (s_fieldwidth, 2)]
+NEW_SCENARIOS = ['s_aggarray', 's_charstrmatch', 's_loops', 's_convert', 's_fieldwidth']
 SIMPLE = [s_lets, s_print, s_assign, s_probe, s_calls, s_if]
 
 
@@ -2217,6 +2768,10 @@ def gen_program(seed, index, kind=None, only=None):
     if only is None and kind == 'normal' and index % 9 == 4:
         # every ninth program concentrates on integer matches (jump-table / binary-search lowering at its edges)
         only = ['s_intmatch', 's_probe', 's_lets']
+    if only is None and kind == 'normal' and index % 9 == 7:
+        # ... and every ninth one on one of the scenarios around aggregates in arrays, literal matches on Char / String /
+        # tuples, loop forms, conversions, field widths (in turn), so that each of them is present in every run
+        only = [NEW_SCENARIOS[(index // 9) % len(NEW_SCENARIOS)], 's_probe', 's_lets']
     ctx = dict(depth=0, only=only)
     n = r.randint(3, 7) if kind == 'normal' else r.randint(1, 4)
     body = gen_block(g, sc, ctx, n)
